@@ -2173,3 +2173,59 @@ def inject_type_switches(rng, ops, p=(1, 3)):
     if out[-1] != ('P',):
         out.append(('P',))
     return out
+
+
+# ------------------------------------------------------------------------------------------ shared non-exclusive pin scenes (C03, DESIGN 9.20, seeded change C03-7)
+def gen_sharedpin_scene(rng):
+    """-> (polys, conns, script) or None.  Orthogonal router; a target rectangle with ONE non-exclusive pin of class 2 (setExclusive(false) or ConnDirAll), off-centre
+    along its side (fraction 1/4, 3/4, 1/8, 3/8), inside offset 5 / 10, direction = the side's outward direction or all; 2-4 connectors from free points on all
+    sides of the target, none in line with the pin, all with ConnEnd(target, 2) as destination; 1-3 obstacles between sources and target.  conns = (source, pin
+    position): route_ok demands that the route ends exactly at the pin and stays out of every shape (the target contains the pin: exempt)."""
+    w, h = rng.choice([80, 96, 120, 160]), rng.choice([40, 64, 80])
+    x0, y0 = 300 + rng.range(-8, 8) * 5, 300 + rng.range(-8, 8) * 5
+    x1, y1 = x0 + w, y0 + h
+    fnum = rng.choice([1, 3, 1, 3, 5, 7])
+    fden = 4 if fnum in (1, 3) and rng.chance(2, 3) else 8
+    ins = rng.choice([5, 10])
+    side = rng.choice('TBLR')
+    f = fnum / float(fden)
+    if side == 'T':
+        xo, yo, pos, dirs = f, 0.0, (x0 + w * fnum // fden, y0 + ins), 1
+    elif side == 'B':
+        xo, yo, pos, dirs = f, 1.0, (x0 + w * fnum // fden, y1 - ins), 2
+    elif side == 'L':
+        xo, yo, pos, dirs = 0.0, f, (x0 + ins, y0 + h * fnum // fden), 4
+    else:
+        xo, yo, pos, dirs = 1.0, f, (x1 - ins, y0 + h * fnum // fden), 8
+    if (w * fnum) % fden or (h * fnum) % fden:
+        return None
+    allflag = rng.chance(1, 4)
+    excl = -1 if allflag and rng.chance(1, 2) else 0
+    target = rect_poly((x0, y0, x1, y1))
+    polys = [target]
+    cx, cy = (x0 + x1) // 2, (y0 + y1) // 2
+    srcs = []
+    for sd in rng.shuffle(['L', 'R', 'T', 'B', 'L', 'R'])[:rng.range(2, 4)]:
+        far = rng.range(30, 56) * 5
+        off = rng.range(-12, 12) * 5
+        p = {'L': (x0 - far, cy + off), 'R': (x1 + far, cy + off), 'T': (cx + off, y0 - far), 'B': (cx + off, y1 + far)}[sd]
+        if p[0] == pos[0] or p[1] == pos[1] or p in srcs:
+            continue
+        srcs.append(p)
+        if len(polys) < 4 and rng.chance(3, 4):
+            mx, my = (p[0] + cx) // 2 // 5 * 5, (p[1] + cy) // 2 // 5 * 5
+            ob = (mx - 20, my - 60, mx + 20, my + 60) if sd in 'LR' else (mx - 60, my - 20, mx + 60, my + 20)
+            if all(box_sep(ob, bbox(Q), 30) for Q in polys) and not any(ob[0] - 5 <= q[0] <= ob[2] + 5 and ob[1] - 5 <= q[1] <= ob[3] + 5 for q in srcs):
+                polys.append(rect_poly(ob))
+    srcs = [p for p in srcs if not in_any_bbox(polys, p, margin=5)]
+    if len(srcs) < 2:
+        return None
+    pen, nudge = rng.choice([(10, 0), (50, 0), (10, 4)])
+    L = ['R 1 %s 0.0 %s 1' % (repr(float(pen)), repr(float(nudge)))]
+    for i, P in enumerate(polys):
+        L.append('A %d %s' % (i + 1, fmt_poly(P)))
+    L.append('N 1 2 %r %r %r %d %d' % (xo, yo, float(ins), 15 if allflag else dirs, excl))
+    for i, p in enumerate(srcs):
+        L.append('Q %d %d %d 1 2' % (100 + i, p[0], p[1]))
+    L += ['P', 'X']
+    return polys, [(p, pos) for p in srcs], L, pen, nudge
